@@ -7,11 +7,16 @@
 (*   "rot"  every thread runs the WHOLE alphabet, thread t starting at     *)
 (*          offset t*K/T, so that every query runs concurrently with       *)
 (*          every other one and on every thread;                           *)
+(*   "same" every thread runs the whole alphabet in the SAME order from    *)
+(*          the same start, so that several instances of the same query    *)
+(*          kind execute simultaneously (thread counts SameCounts);        *)
 (*   "rnd"  pseudo-random programs of RndLen queries (seeded).             *)
+(* Every alphabet must contain RequiredOps (all lookups, every circulator  *)
+(* kind, the circulator-based geometry queries).                           *)
 (***************************************************************************)
 EXTENDS OVMReadersDefs, Json, IOUtils
 
-CONSTANTS Seed, ThreadCounts, RndCases, RndLen, Reps, RepsBig
+CONSTANTS Seed, ThreadCounts, SameCounts, RndCases, RndLen, Reps, RepsBig
 
 Ms == ndJsonDeserialize(IOEnv.MESHES)
 AlphaOf == [i \in 1 .. Len(Ms) |-> Alphabet(Ms[i].proj, Ms[i].type)]
@@ -28,6 +33,10 @@ Cases ==
   UNION { UNION { {[mesh |-> Ms[i].name, case |-> i * 1000 + T * 10, kind |-> "rot", threads |-> T,
                     reps |-> IF T <= 4 THEN RepsBig ELSE Reps,
                     progs |-> [t \in 1 .. T |-> Rot(Len(AlphaOf[i]), T, t)]]}
+                  \cup (IF T \in SameCounts
+                          THEN {[mesh |-> Ms[i].name, case |-> i * 1000 + T * 10 + 9, kind |-> "same", threads |-> T, reps |-> Reps,
+                                 progs |-> [t \in 1 .. T |-> Rot(Len(AlphaOf[i]), 1, 1)]]}
+                          ELSE {})
                   \cup {[mesh |-> Ms[i].name, case |-> i * 1000 + T * 10 + k, kind |-> "rnd", threads |-> T, reps |-> RepsBig,
                          progs |-> [t \in 1 .. T |-> Rnd(Start(i, T, k, t), RndLen, Len(AlphaOf[i]))]] : k \in 1 .. RndCases}
                   : T \in ThreadCounts }
@@ -38,6 +47,9 @@ Next == UNCHANGED c
 Spec == Init /\ [][Next]_c
 EmitCase == PrintT(<<"EMIT", ToJson(c)>>)
 
+ASSUME \A i \in 1 .. Len(Ms) : Assert(RequiredOps \subseteq {AlphaOf[i][k].op : k \in 1 .. Len(AlphaOf[i])},
+                                       <<"alphabet lacks required query kinds", Ms[i].name,
+                                         RequiredOps \ {AlphaOf[i][k].op : k \in 1 .. Len(AlphaOf[i])}>>)
 ASSUME \A i \in 1 .. Len(Ms) : PrintT(<<"ALPHA", ToJson([mesh |-> Ms[i].name, type |-> Ms[i].type, q |-> AlphaOf[i]])>>)
 
 (* the mesh the model checker uses (OVMReadersMC!TetMesh) is the mesh the   *)
